@@ -90,7 +90,19 @@ func c08BigEmit(c *Ctx, d *c08Decoder, params string, in []byte, replay bool) bo
 		}
 	}
 	var obs string
-	st := c08ExecFor(c).guardT(c08Timeout, func() { obs = d.run(params, in) })
+	// a heavy case makes the unchanged code reserve up to c08BigCap bytes before it reads: on a loaded machine
+	// that alone can outlast the ordinary watchdog. Memory behaviour is outside the property (DESIGN §7/§9), so a
+	// heavy case gets a long watchdog, and one that still does not return is not judged at all (no line).
+	timeout := c08Timeout
+	if w.alloc > c08BigHeavy {
+		timeout = 18 * c08Timeout
+	}
+	st := c08ExecFor(c).guardT(timeout, func() { obs = d.run(params, in) })
+	if st == "hang" && w.alloc > c08BigHeavy {
+		c08BigSkipped++
+		fmt.Fprintf(os.Stderr, "c08: heavy case %s %s did not return within %v: skipped, not judged\n", d.name, params, timeout)
+		c08Abort(c)
+	}
 	if st != "" {
 		obs = st
 	}
